@@ -81,6 +81,12 @@ def gen_cases(ctx, n, seeds):
             if rng.random() < 0.5:
                 b = mutate(rng, b)
             cases.append(("rtr", "rtr %s" % hx(b), b))
+        elif r < 0.27:
+            v6 = rng.randrange(2)
+            top = 128 if v6 else 32
+            pl = rng.choice([0, 1, top - 1, top, top + 1, rng.randrange(256)])
+            ml = rng.choice([pl, pl - 1 if pl > 0 else 0, top, top + 1, rng.randrange(256)])
+            cases.append(("rtrnew", "rtrnew %d %d %d %d %d" % (v6, pl, ml, rng.randrange(2 ** 32), rng.randrange(2)), None))
         elif r < 0.35:
             b = bfd_valid(rng)
             if rng.random() < 0.5:
@@ -164,6 +170,8 @@ def oracle(c, out):
     if kind == "rt":
         if out != "ok true true":
             return ("roundtrip-" + line.split()[1], "constructed message does not round-trip: %s" % out)
+    if kind == "rtrnew" and out not in ("nil",) and not out.startswith("ok"):
+        return ("rtr-constructor", "PDU built by NewRTRIPPrefix does not parse back: %s" % out)
     if kind == "scan":
         recs, good = data
         if good:
@@ -191,7 +199,7 @@ def run(ctx):
                     seeds.append((f[1], bytes.fromhex(f[2])))
     n = ctx.scale(12000, 300000)
     cases = [("rt", "rt %s %s" % (p, hx(b)), b) for p, b in seeds] + gen_cases(ctx, n, seeds)
-    modelled = ("rtr", "bfd", "splitmrt", "splitbmp")
+    modelled = ("rtr", "rtrnew", "bfd", "splitmrt", "splitbmp")
     cov = core.differential(ctx, "c19", proof, cases, lambda c: c[1], oracle,
                             model_applies=lambda c: c[0] in modelled, nontrivial=lambda c: len(c[1]) > 20,
                             more_cases=lambda: gen_cases(ctx, n, seeds),
